@@ -238,3 +238,6 @@ Proof.
   - rewrite H3. unfold calculate_usable_order, MAX_MAX_PAGE_ORDER. lia.
   - split; [constructor|]. split; [constructor|]. intros p Hp. left. apply H4. lia.
 Qed.
+
+Theorem steps_from_new_good n cap os s' : steps (buddy_new n cap, []) os s' -> good s'.
+Proof. intros H. exact (steps_good _ os s' (good_new n cap) H). Qed.
